@@ -436,9 +436,9 @@ func (r *run) play(ch sched.Chooser) *sched.Outcome {
 // lock probe: sits between vstore.Locker and the real MemoryLock.
 
 type probeLock struct {
-	r      *run
-	inner  idempotency.Locker
-	holder map[string]int
+	r       *run
+	inner   idempotency.Locker
+	holder  map[string]int
 	unlocks int
 }
 
